@@ -466,6 +466,8 @@ func (o *ProjectOptions) LoadModel(ctx context.Context) (map[string]any, error) 
 	if err != nil {
 		return nil, err
 	}
+	// the model is interpolated, and the project named, with the project environment, as for LoadProject
+	configDetails.Environment = o.Environment
 
 	return loader.LoadModelWithContext(ctx, *configDetails, o.loadOptions...)
 }
